@@ -320,4 +320,8 @@ def cases(draw, corpus_table, big=False):
         need = 1 if (not is_add or nrep or ctype in PIE_TYPES) else 0
         bulk = draw(st.sampled_from([699, 700, 701, 702, 703])) if bigcase else None
         datas.append(draw(_data(kind, bulk=bulk, min_date=min_date, min_series=need)))
+    if start == "new":
+        # an embedded .xlsx OLE object added before the chart: it shares the "Microsoft_Excel_Sheet%d.xlsx"
+        # part-name space with chart workbooks
+        mods["ole_first"] = draw(st.sampled_from([False, False, False, True]))
     return {"kind": kind, "type": ctype, "start": start, "mods": mods, "datas": datas}
